@@ -5,6 +5,7 @@ import random
 from common import enc, enc_rule
 import engine
 
+EDGE = ["x, ", " ,y ", " lead", "trail ", " a b ", "\tx,\t"]
 VALUES = ["alice", "data1", "read", "a b", "x,y", "a, b", "é", "日本", "p", "#x", "a#b", "r.sub", "1", "-", "/path/*", "k=v", ";", "[x]", "back\\slash"]
 
 
@@ -13,7 +14,8 @@ def csv_line_variant(rnd, cols):
     for i, v in enumerate(cols):
         pre = rnd.choice(["", "", " ", "  ", "\t"])
         post = rnd.choice(["", "", " ", "  ", "\t"])
-        q = ("," in v) or (i > 0 and rnd.random() < 0.25)
+        # a value with leading / trailing blanks can only be carried inside quotes (kept verbatim there)
+        q = ("," in v) or (v != v.strip()) or (i > 0 and rnd.random() < 0.25)
         out.append(pre + ('"' + v + '"' if q else v) + post)
     return ",".join(out)
 
@@ -114,7 +116,7 @@ def generate(tier, seed):
     n_csv = 1500 if tier == "quick" else 30000
     for _ in range(n_csv):
         n = rnd.randint(1, 5)
-        cols = [rnd.choice(["p", "p2", "g", "g2"])] + [rnd.choice(VALUES) for _ in range(n)]
+        cols = [rnd.choice(["p", "p2", "g", "g2"])] + [rnd.choice(VALUES + EDGE) for _ in range(n)]
         cases.append("csvx %s %s" % (enc(csv_line_variant(rnd, cols)), enc_rule(cols)))
         dist["csv_lines"] += 1
     for v in VALUES + ["", " ", '"', 'a"b', "a\nb"]:
